@@ -11,6 +11,10 @@ different SkipActiveFile) is what the C05 harness runs. One line is added after 
 callbacks are created: they are passed through verifC05Observe (defined by the harness),
 which only observes (crash-point snapshots) and calls the real callback.
 
+A second function, verifC05MaintenanceTick(cfg, arrowBuffer, walWriter, recoveryCallback,
+columnarCallback), is the verbatim body of `case <-ticker.C:` of the periodic WAL
+maintenance goroutine that follows, preceded by its safeAge computation.
+
 usage: c05_startup.py <repo> <outdir>      prints: OVERLAY <repo-relative-dst> <abs-src>
 Exits non-zero when an anchor is missing or ambiguous (fail closed).
 """
@@ -86,7 +90,61 @@ def main():
             die("extracted block closes a brace it did not open")
     if depth != 1:
         die("expected the block to end inside exactly one open brace (if walRecovery != nil), got depth %d" % depth)
-    code = "\n".join(strip_code(l) for l in block)
+    # ---- second function: one tick of the periodic WAL maintenance goroutine
+    tail = lines[ends[0]:]
+
+    def first(pattern, what):
+        idx = [i for i, l in enumerate(tail) if re.search(pattern, strip_code(l))]
+        if not idx:
+            die("maintenance goroutine: %s not found after the end anchor" % what)
+        return idx[0]
+
+    def until_balanced(start):
+        """lines from start until the brace depth opened on/after start returns to 0"""
+        out, d, opened = [], 0, False
+        for l in tail[start:]:
+            sc = strip_code(l)
+            d += sc.count("{") - sc.count("}")
+            opened = opened or "{" in sc
+            out.append(l)
+            if opened and d == 0:
+                return out
+            if d < 0:
+                break
+        die("maintenance goroutine: unbalanced block at line %d" % (ends[0] + start + 1))
+
+    i_safe = first(r"^\s*safeAge := ", "safeAge computation")
+    safe_lines = [tail[i_safe]]
+    j = i_safe + 1
+    while j < len(tail) and not tail[j].strip():
+        j += 1
+    if not re.match(r"^\s*if safeAge <", tail[j]):
+        die("maintenance goroutine: 'if safeAge <' clamp does not follow the safeAge computation")
+    safe_lines += until_balanced(j)
+    i_log = first(r"^\s*walLogger := logger\.Get\(", "walLogger")
+    i_case = first(r"^\s*case <-ticker\.C:\s*$", "case <-ticker.C:")
+    if not (i_safe < i_log < i_case and i_case - i_safe < 40):
+        die("maintenance goroutine: anchors out of order / too far apart (safeAge %d, walLogger %d, ticker case %d)" % (i_safe, i_log, i_case))
+    body, d = [], 0
+    for l in tail[i_case + 1:]:
+        sc = strip_code(l)
+        if d == 0 and re.match(r"^\s*(case\b.*:|default:)\s*$", sc):
+            break
+        d += sc.count("{") - sc.count("}")
+        if d < 0:
+            break
+        body.append(l)
+    else:
+        die("maintenance goroutine: end of the ticker case not found")
+    btext = "\n".join(body)
+    for r in ("arrowBuffer.HasFlushFailure()", "walWriter.PurgeOlderThan(safeAge)"):
+        if r not in btext:
+            die("maintenance tick body does not contain %r" % r)
+    tick = (["func verifC05MaintenanceTick(cfg *config.Config, arrowBuffer *ingest.ArrowBuffer, walWriter *wal.Writer, "
+             "recoveryCallback wal.RecoveryCallback, columnarCallback wal.ColumnarRecoveryCallback) {"]
+            + safe_lines + [tail[i_log]] + body + ["}", ""])
+
+    code = "\n".join(strip_code(l) for l in block + tick)
     used = [k for k in IMPORTS if re.search(r"\b%s\." % re.escape(k), code)]
     for k in ("config", "storage", "shutdown", "wal", "ingest"):
         if k not in used:
@@ -99,7 +157,10 @@ def main():
             "func verifC05Startup(cfg *config.Config, storageBackend storage.Backend, shutdownCoordinator *shutdown.Coordinator) (*wal.Writer, *ingest.ArrowBuffer) {"]
     out += block
     out += ["\t} // closes: if walRecovery != nil (the periodic maintenance goroutine that follows in main() is not part of startup recovery)",
-            "\treturn walWriter, arrowBuffer", "}", ""]
+            "\treturn walWriter, arrowBuffer", "}", "",
+            "// verifC05MaintenanceTick is the body of `case <-ticker.C:` of the periodic WAL maintenance goroutine",
+            "// (cmd/arc/main.go lines %d-%d) with the safeAge computation that precedes it." % (ends[0] + i_safe + 1, ends[0] + i_case + 1 + len(body))]
+    out += tick
     os.makedirs(outdir, exist_ok=True)
     dst = os.path.join(outdir, "zz_c05_startup_gen_test.go")
     with open(dst, "w") as f:
